@@ -120,28 +120,21 @@ theorem runBatch_agg (O : Oracles) (qy : Query) (q : AggStmt) (hq : qy.stmt = .a
   have : finalResult O q { seen := ([] : List (List Value)), agg := st, numOut := 0 } = .ok r := hfin
   simp [this]
 
-/-- **refinement, driver level**: for the function the driver executes (`runBatch`: the `FileExecutor` loop over all
-files, the engine, the final table printed once) and the specification's answer for the same case (`Spec.Agg.batch`,
-what `./check` compares with the implementation): whenever the specification answers outside the known deviation
-classes, the model's answer IS the specification's answer. -/
-theorem batch_refines_spec {O : Oracles} {qy : Query} {q : AggStmt} (hq : qy.stmt = .aggregate q) (hwf : StmtWF q)
-    (joined : List FileLine) (files : List (List FileLine)) {ro : RunOut}
+/-- refinement at driver level, statements without JOIN -/
+theorem batch_refines_spec_nojoin {O : Oracles} {qy : Query} {q : AggStmt} (hq : qy.stmt = .aggregate q) (hwf : StmtWF q)
+    (hj : qy.join = none) (joined : List FileLine) (files : List (List FileLine)) {ro : RunOut}
     (h : Spec.Agg.batch O qy q joined files = some (ro, "")) : runBatch O qy joined files none = ro := by
   unfold Spec.Agg.batch at h
-  simp only at h
+  simp only [hj] at h
   split at h
   · simp at h
-  · rename_i hcond
-    simp only [Bool.or_eq_true, not_or, Bool.not_eq_true] at hcond
-    obtain ⟨hj, hany⟩ := hcond
-    have hj' : qy.join = none := by
-      cases hjj : qy.join with
-      | none => rfl
-      | some j => simp [hjj] at hj
+  · rename_i hany
+    simp only [Bool.not_eq_true] at hany
     have hread : ∀ fl ∈ files.flatten, fl.readable = true := by
       intro fl hfl
       have := List.any_eq_false.mp hany fl hfl
       simpa using this
+    unfold Spec.Agg.batchOver at h
     cases ht : table O q (envsOf qy.table files.flatten) with
     | none => simp [ht] at h
     | some t =>
@@ -149,7 +142,7 @@ theorem batch_refines_spec {O : Oracles} {qy : Query} {q : AggStmt} (hq : qy.stm
       obtain ⟨hro, hclass⟩ := h
       have htot := engine_refines_spec_total hwf _ ht hclass
       obtain ⟨st, hst, hfin⟩ := obind_ok htot
-      rw [runBatch_agg O qy q hq hj' joined files hread hst hfin, ← hro]
+      rw [runBatch_agg O qy q hq hj joined files hread hst hfin, ← hro]
 
 /-! ### SUM: the overflow case -/
 
